@@ -19,7 +19,10 @@ import (
 var frQ, _ = new(big.Int).SetString("21888242871839275222246405745257275088548364400416034343698204186575808495617", 10)
 
 // block draws one canonical 32-byte big-endian bn254-fr element, boundary heavy.
-func block(t *rapid.T, label string) []byte {
+func block(t *rapid.T, label string) []byte { return blockOf(t, hashes[1], label) }
+
+// blockOf draws one canonical big-endian block of the field of an algebraic hash, boundary heavy.
+func blockOf(t *rapid.T, h hashKind, label string) []byte {
 	var v *big.Int
 	switch rapid.IntRange(0, 6).Draw(t, label+"cls") {
 	case 0:
@@ -27,32 +30,32 @@ func block(t *rapid.T, label string) []byte {
 	case 1:
 		v = big.NewInt(1)
 	case 2:
-		v = new(big.Int).Sub(frQ, big.NewInt(1))
+		v = new(big.Int).Sub(h.q, big.NewInt(1))
 	case 3:
-		v = new(big.Int).Lsh(big.NewInt(1), uint(rapid.IntRange(0, 253).Draw(t, label+"bit")))
+		v = new(big.Int).Lsh(big.NewInt(1), uint(rapid.IntRange(0, h.q.BitLen()-2).Draw(t, label+"bit")))
 	default:
-		b := rapid.SliceOfN(rapid.Byte(), 32, 32).Draw(t, label+"raw")
+		b := rapid.SliceOfN(rapid.Byte(), h.block, h.block).Draw(t, label+"raw")
 		v = new(big.Int).SetBytes(b)
-		v.Mod(v, frQ)
+		v.Mod(v, h.q)
 	}
-	out := make([]byte, 32)
+	out := make([]byte, h.block)
 	v.FillBytes(out)
 	return out
 }
 
 // drawName draws a challenge name that the hash accepts as its first chunk.
 func drawName(t *rapid.T, h hashKind, label string) string {
-	if h.name == "mimc" {
-		// MiMC.Write accepts: empty, 1..31 bytes (left-padded), whole canonical blocks
+	if h.field() {
+		// MiMC.Write accepts: empty, 1..block-1 bytes (left-padded), whole canonical blocks
 		switch rapid.IntRange(0, 4).Draw(t, label+"cls") {
 		case 0:
 			return ""
 		case 1:
-			return string(block(t, label+"blk"))
+			return string(blockOf(t, h, label+"blk"))
 		case 2:
-			return string(block(t, label+"blk0")) + string(block(t, label+"blk1"))
+			return string(blockOf(t, h, label+"blk0")) + string(blockOf(t, h, label+"blk1"))
 		default:
-			return string(rapid.SliceOfN(rapid.Byte(), 1, 31).Draw(t, label))
+			return string(rapid.SliceOfN(rapid.Byte(), 1, h.block-1).Draw(t, label))
 		}
 	}
 	switch rapid.IntRange(0, 5).Draw(t, label+"cls") {
@@ -69,19 +72,19 @@ func drawName(t *rapid.T, h hashKind, label string) string {
 
 // drawValue draws a value the hash accepts as a chunk (any bytes for SHA-256).
 func drawValue(t *rapid.T, h hashKind, p *pair, label string) ([]byte, string) {
-	if h.name == "mimc" {
+	if h.field() {
 		switch rapid.IntRange(0, 4).Draw(t, label+"cls") {
 		case 0:
 			return []byte{}, "v_empty"
 		case 1:
-			return rapid.SliceOfN(rapid.Byte(), 1, 31).Draw(t, label), "v_short"
+			return rapid.SliceOfN(rapid.Byte(), 1, h.block-1).Draw(t, label), "v_short"
 		case 2:
-			return block(t, label), "v_block"
+			return blockOf(t, h, label), "v_block"
 		default:
 			n := rapid.IntRange(2, 3).Draw(t, label+"n")
 			var v []byte
 			for i := 0; i < n; i++ {
-				v = append(v, block(t, label)...)
+				v = append(v, blockOf(t, h, label)...)
 			}
 			return v, "v_blocks"
 		}
@@ -110,7 +113,7 @@ func propMachine(t *rapid.T, h hashKind) {
 		n := drawName(t, h, "name")
 		for ctr := 1; seen[n]; ctr++ {
 			// make it distinct constructively (no filtering): for MiMC keep it a valid (short) chunk
-			if h.name == "mimc" {
+			if h.field() {
 				n = string([]byte{0x7f, byte(ctr)})
 			} else {
 				n += "'"
@@ -136,7 +139,7 @@ func propMachine(t *rapid.T, h hashKind) {
 	unknown = append(unknown, fresh)
 
 	p := newPair(h, names)
-	classes := map[string]bool{h.name: true, fmt.Sprintf("k=%d", k): true}
+	classes := map[string]bool{h.name: true, h.digestClass(): true, fmt.Sprintf("k=%d", k): true}
 	if seen[""] {
 		classes["empty_name_declared"] = true
 	}
@@ -234,15 +237,31 @@ func propMachine(t *rapid.T, h hashKind) {
 			log = append(log, fmt.Sprintf("Compute(%q)", n))
 			fail(p.compute(n))
 		},
-		"mut_bound": func(t *rapid.T) {
+		"flip_bound": func(t *rapid.T) {
 			steps++
-			log = append(log, "MutateBound")
-			p.mutBound()
+			log = append(log, "OverwriteBound")
+			classes["mut:overwrite_bound"] = true
+			p.flipBound()
 		},
-		"mut_returned": func(t *rapid.T) {
+		"append_bound": func(t *rapid.T) {
+			// the caller keeps appending to the slices it handed to Bind (1, n, 2n+1 bytes) and writes to their spare capacity
 			steps++
-			log = append(log, "MutateReturned")
-			p.mutRet()
+			log = append(log, "AppendToBound")
+			classes["mut:append_bound"] = true
+			p.appendBound()
+		},
+		"flip_returned": func(t *rapid.T) {
+			steps++
+			log = append(log, "OverwriteReturned")
+			classes["mut:overwrite_returned"] = true
+			p.flipRet()
+		},
+		"append_returned": func(t *rapid.T) {
+			// msg := append(challenge, …): 1, n and 2n+1 extra bytes on every returned challenge, plus its spare capacity
+			steps++
+			log = append(log, "AppendToReturned")
+			classes["mut:append_returned"] = true
+			p.appendRet()
 		},
 	})
 	allComputed := true
